@@ -146,9 +146,15 @@ class C09(PropBase):
                 # whatever the random history left of the gadget: flip the base's flag (or delete the base definition), let a few
                 # steps pass, change the reference the cells reads by name, and ask again
                 rr = ctx.rng("gadget-tail")
-                tail = [rr.choice([{"op": "set_cached", "space": "A", "name": "f", "v": True},
+                first = rr.choice([{"op": "set_cached", "space": "A", "name": "f", "v": True},
                                    {"op": "set_cached", "space": "A", "name": "f", "v": True},
-                                   {"op": "del_cells", "space": "A", "name": "f", "how": "delattr"}])]
+                                   {"op": "del_cells", "space": "A", "name": "f", "how": "delattr"}])
+                ra = run.mach.ref.space("A")
+                ca = ra.cells.get("f") if ra is not None else None
+                if first["op"] == "del_cells" and (ca is None or not run.mach.deletable(ca)):
+                    # an object-valued reference points at A.f: deleting it is the dangling-reference finding of C02
+                    first = {"op": "set_cached", "space": "A", "name": "f", "v": True}
+                tail = [first]
                 for _ in range(rr.choice([0, 0, 1, 3])):
                     op = run.mach.next_op(WEIGHTS)
                     if op:
